@@ -43,6 +43,9 @@ Ctx3(c, e) ==
     [] c = 4 -> Prog(<<Node("fdecl", "", <<Id("f"), PList(<<Id("p")>>), Blk(<<Ret(e)>>)>>)>>)
     [] c = 5 -> Prog(<<Node("if", "", <<e, Blk(<<E(A)>>), E(e)>>)>>)
     [] c = 6 -> Prog(<<Node("for", "", <<Node("lete", "", <<Id("i"), e>>), e, e, E(A)>>)>>)
+    [] c = 7 -> Prog(<<Node("fdecl", "", <<Id("f"), PList(<<>>), Blk(<<E(e), E(A)>>)>>)>>)       \* a statement inside a block
+    [] c = 8 -> Prog(<<Let("x", e), E(Node("call", "", <<Grp(B)>>))>>)                            \* followed by a `(` statement
+    [] c = 9 -> Prog(<<E(e), E(Node("un", "-", <<A>>)), If(A, E(e), E(B))>>)                      \* followed by `-`; before else
 
 Cfgs == <<Compact, Pretty(<<32, 32>>, TRUE), Pretty(<<9>>, FALSE)>>
 CfgNames == <<"compact", "pretty:default:semi", "pretty:tab:nosemi">>
